@@ -65,8 +65,7 @@ Proof.
     assert (Qr : forall a, Q a a) by (intros; split; reflexivity).
     assert (Qt : forall a b c1, Q a b -> Q b c1 -> Q a c1) by (intros a b c1 (A1 & A2) (B1 & B2); split; congruence).
     change (Q c0 (fst (send_frame c0 op rsv z))).
-    apply fr_send_frame with (P := Q); auto; try (intros; split; reflexivity).
-    intros. apply write_from_emit with (ok_item := fun _ => True); auto; try (intros; split; reflexivity). }
+    apply send_from_emit with (ok_item := fun _ => True); auto; try (intros; split; reflexivity). }
   destruct (k_ctape c) as [|z0 zs] eqn:Et; destruct (c_reset d); cbn [fst];
     match goal with |- context [send_frame ?c0 op true ?z] => destruct (Hk c0 true z) as [H1 H2]; rewrite H1, H2 end; cbn; rewrite ?Et; auto.
 Qed.
